@@ -24,7 +24,7 @@ def load_model(prog):
     path = os.path.join(prog.dir, "grammar_lang.pkl") if getattr(prog, "dir", None) else None
     here = os.path.dirname(os.path.abspath(__file__))
     srcs = [os.path.join(here, f) for f in ("parser_ai.py", "grammar_lang.py", "grammar_cmp.py", "paths.py", "facts.py",
-                                            "inline.py", "renames.py", "anchors.json", "cfg.py") if os.path.exists(os.path.join(here, f))]
+                                            "inline.py", "renames.py", "normalize.py", "anchors.json", "cfg.py") if os.path.exists(os.path.join(here, f))]
     if path and os.path.exists(path) and all(os.path.getmtime(path) >= os.path.getmtime(f) for f in srcs):
         try:
             with open(path, "rb") as f:
